@@ -101,6 +101,10 @@ func paramShapes(quick bool) []shape {
 	}
 	for _, tag := range fieldTags {
 		s = append(s, shape{"In{F A `" + tag + "`}", []reflect.Type{st(emb(tyIn, ""), sf("F", tyA, tag))}, false})
+		if tag != "" && !quick {
+			s = append(s, shape{"In{F A;x []A `" + tag + "`}", []reflect.Type{st(emb(tyIn, ""), sf("F", tyA, ""), sf("x", reflect.SliceOf(tyA), tag))}, false})
+			s = append(s, shape{"In{ignore-unexported;x []A `" + tag + "`}", []reflect.Type{st(emb(tyIn, `ignore-unexported:"true"`), sf("F", tyA, ""), sf("x", reflect.SliceOf(tyA), tag))}, false})
+		}
 		s = append(s, shape{"In{F []A `" + tag + "`}", []reflect.Type{st(emb(tyIn, ""), sf("F", reflect.SliceOf(tyA), tag))}, false})
 		if !quick {
 			s = append(s, shape{"In{F NS `" + tag + "`}", []reflect.Type{st(emb(tyIn, ""), sf("F", tyNS, tag))}, false})
@@ -153,6 +157,11 @@ func resultShapes(quick bool) []shape {
 	}
 	for _, tag := range fieldTags {
 		s = append(s, shape{"Out{F A `" + tag + "`}", []reflect.Type{st(emb(tyOut, ""), sf("F", tyA, tag))}, false})
+		if tag != "" {
+			// the same tags on an unexported field
+			s = append(s, shape{"Out{F A;x A `" + tag + "`}", []reflect.Type{st(emb(tyOut, ""), sf("F", tyA, ""), sf("x", tyA, tag))}, false})
+			s = append(s, shape{"Out{x []A `" + tag + "`}", []reflect.Type{st(emb(tyOut, ""), sf("x", reflect.SliceOf(tyA), tag))}, false})
+		}
 		s = append(s, shape{"Out{F []A `" + tag + "`}", []reflect.Type{st(emb(tyOut, ""), sf("F", reflect.SliceOf(tyA), tag))}, false})
 		if !quick {
 			s = append(s, shape{"Out{F NS `" + tag + "`}", []reflect.Type{st(emb(tyOut, ""), sf("F", tyNS, tag))}, false})
